@@ -1,4 +1,5 @@
 import Ark.Props.C02
+import Ark.Props.C02Src
 
 #print axioms Ark.Props.C02.fresh_handle
 #print axioms Ark.Props.C02.alive_exact
@@ -9,9 +10,9 @@ import Ark.Props.C02
 #print axioms Ark.Props.C02.alive_exact_world
 #print axioms Ark.Props.C02.count_world
 #print axioms Ark.Props.C02.handles_fresh_world
-#print axioms Ark.Props.C02.src_pool_getNew
-#print axioms Ark.Props.C02.src_pool_get
-#print axioms Ark.Props.C02.src_pool_recycle
-#print axioms Ark.Props.C02.src_pool_reset
-#print axioms Ark.Props.C02.src_pool_len
-#print axioms Ark.Props.C02.src_pool_cap
+#print axioms Ark.Props.C02Src.src_pool_getNew
+#print axioms Ark.Props.C02Src.src_pool_get
+#print axioms Ark.Props.C02Src.src_pool_recycle
+#print axioms Ark.Props.C02Src.src_pool_reset
+#print axioms Ark.Props.C02Src.src_pool_len
+#print axioms Ark.Props.C02Src.src_pool_cap
